@@ -29,6 +29,10 @@ func main() {
 		os.Setenv("PATH", "/opt/veriftools/go1.26.8/bin:"+os.Getenv("PATH"))
 	}
 
+	switch *goarch {
+	case "386", "arm", "mips", "mipsle", "wasm":
+		analysedIntSize = 32
+	}
 	P, err := Load(*repo, *goos, *goarch)
 	if err != nil {
 		if *prop != "" && *dump == "" {
